@@ -522,15 +522,20 @@ func (c *FnCtx) evalBinary(st *State, x *ast.BinaryExpr) Val {
 	switch x.Op {
 	case token.LAND, token.LOR:
 		a := c.evalExpr(st, x.X)
-		// evaluate the right operand under the short-circuit guard
-		saved := st.pc
+		// evaluate the right operand under the short-circuit guard, in its own branch state
+		// (it may contain calls), then join with the branch that skips it
+		run, skip := st.clone(), st.clone()
 		if x.Op == token.LAND {
-			st.pc = c.define("pc", "Bool", sAnd(saved, a.S))
+			run.pc = c.define("pc", "Bool", sAnd(st.pc, a.S))
+			skip.pc = c.define("pc", "Bool", sAnd(st.pc, sNot(a.S)))
 		} else {
-			st.pc = c.define("pc", "Bool", sAnd(saved, sNot(a.S)))
+			run.pc = c.define("pc", "Bool", sAnd(st.pc, sNot(a.S)))
+			skip.pc = c.define("pc", "Bool", sAnd(st.pc, a.S))
 		}
-		b := c.evalExpr(st, x.Y)
-		st.pc = saved
+		b := c.evalExpr(run, x.Y)
+		if m := c.merge([]*State{run, skip}); m != nil {
+			st.pc, st.env, st.heaps, st.alloc = m.pc, m.env, m.heaps, m.alloc
+		}
 		if x.Op == token.LAND {
 			return vBool(sAnd(a.S, b.S))
 		}
@@ -1208,6 +1213,9 @@ func (c *FnCtx) modified(nodes ...ast.Node) *modSet {
 					// conversions allocate at most
 					return true
 				}
+				if c.callIsPure(s, ms, 0) {
+					return true
+				}
 				ms.calls = true
 			case *ast.FuncLit:
 				return true
@@ -1384,6 +1392,8 @@ func (c *FnCtx) useLemma(st *State, cl *Clause) {
 		sc.vars[qn] = vInt(qvars[i])
 		sc.bound[qn] = true
 	}
+	c.openBound = append(c.openBound, qvars...)
+	defer func() { c.openBound = c.openBound[:len(c.openBound)-len(qvars)] }()
 	inst := &SpecScope{c: c, cur: st, old: c.entry, vars: map[string]Val{}, bound: sc.bound}
 	for i, pn := range lem.Params {
 		if i < len(call.Args) {
@@ -1439,7 +1449,9 @@ func (c *FnCtx) ghostAssign(st *State, cl *Clause, iter *State) {
 	sc.iter = iter
 	sc.vars[param] = vInt(bv)
 	sc.bound = map[string]bool{param: true}
+	c.openBound = append(c.openBound, bv)
 	body := sc.intOf(cl.Expr)
+	c.openBound = c.openBound[:len(c.openBound)-1]
 	nw := c.newHeapVersion(key)
 	c.declared[nw] = true
 	c.emit(fmt.Sprintf("(define-fun %s ((%s Int)) Int %s)", nw, bv, body))
@@ -1719,4 +1731,58 @@ func (c *FnCtx) execRangeUnrolled(st *State, x *ast.RangeStmt, coll Val, n strin
 	brks := c.breaks[len(c.breaks)-1]
 	c.breaks = c.breaks[:len(c.breaks)-1]
 	return c.merge(append(exits, brks...))
+}
+
+var pureExterns = map[string]bool{"bytes.IndexByte": true, "bytes.Equal": true, "fmt.Sprintf": true, "sort.Search": true,
+	"bytes.HasPrefix": true, "strings.IndexByte": true, "bytes.ToLower": true, "strings.ToLower": true, "fmt.Errorf": true, "errors.New": true}
+
+// callIsPure reports whether a call cannot write to existing memory: its callee has a contract
+// with "assigns nothing", is a pure external function, or is an inlinable function whose body
+// only calls such functions (element heaps it writes directly are added to ms).
+func (c *FnCtx) callIsPure(call *ast.CallExpr, ms *modSet, depth int) bool {
+	var fn *types.Func
+	switch f := unparen(call.Fun).(type) {
+	case *ast.Ident:
+		fn, _ = c.info.ObjectOf(f).(*types.Func)
+	case *ast.SelectorExpr:
+		if sel, ok := c.info.Selections[f]; ok {
+			if sel.Kind() == types.MethodVal {
+				fn, _ = sel.Obj().(*types.Func)
+			}
+		} else {
+			fn, _ = c.info.ObjectOf(f.Sel).(*types.Func)
+		}
+	}
+	if fn == nil {
+		// call of a function value: modelled as a pure function
+		if _, ok := c.typeOf(call.Fun).Underlying().(*types.Signature); ok {
+			return true
+		}
+		return false
+	}
+	key := c.funcKey(fn)
+	if fs, ok := c.eng.contracts.Funcs[key]; ok {
+		return fs.Assigns == "nothing"
+	}
+	if pureExterns[fn.FullName()] {
+		return true
+	}
+	if _, ok := externs[fn.FullName()]; ok {
+		return false
+	}
+	if d, ok := c.eng.decls[fn]; ok && d.decl.Body != nil && depth < 3 {
+		// inlined callee: scan its body with its own type information
+		saved := c.info
+		c.info = d.pkg.TypesInfo
+		sub := c.modified(d.decl.Body)
+		c.info = saved
+		for k, v := range sub.elems {
+			ms.elems[k] = v
+		}
+		for k, v := range sub.ptrs {
+			ms.ptrs[k] = v
+		}
+		return !sub.calls
+	}
+	return false
 }
